@@ -98,6 +98,13 @@ EXTRA = [
     # variable-size bit regions with a greedy tail that starts inside a byte
     ("BitStruct('n'/Nibble, 'rest'/GreedyBytes)", _v_dict(n=_v_int(0, 15), rest=_v_bits([4, 12]))), ("Bitwise(Sequence(BitsInteger(3), Flag, GreedyRange(BitsInteger(4))))", None, 2),
     ("BitStruct('a'/BitsInteger(6), 'tail'/GreedyRange(BitsInteger(5)))", None, 2),
+    # variable-length integers far beyond 64 bits
+    ("ZigZag", _v_int(-2 ** 70, 2 ** 70)), ("VarInt", _v_int(0, 2 ** 70)), ("Struct('z'/ZigZag, 't'/Byte)", _v_dict(z=_v_int(-2 ** 64 - 5, -2 ** 63 + 5), t=_v_int(0, 255))),
+    # a recursive grammar: the same Prefixed instance is re-entered while it is building
+    ("NODE", "tree"),
+    # end-relative regions inside a box that does not start at offset 0
+    ("Struct('h'/Bytes(2), 'box'/Prefixed(Byte, Struct('body'/OffsettedEnd(-2, GreedyBytes), 'trailer'/Int16ub)), 't'/Byte)", _v_dict(h=_v_bytes(2), box=_v_dict(body=_v_bytes(3), trailer=_v_int(0, 65535)), t=_v_int(0, 255))),
+    ("Struct('h'/Byte, 'box'/FixedSized(5, Struct('body'/OffsettedEnd(-1, GreedyBytes), 'trailer'/Byte)))", _v_dict(h=_v_int(0, 255), box=_v_dict(body=_v_bytes(4), trailer=_v_int(0, 255)))),
     # named tuples over sequences and structs, field order different from member order
     ("NamedTuple('size', 'width height', Struct('height'/Int16ub, 'width'/Int16ub))", _v_dict(width=_v_int(0, 65535), height=_v_int(0, 65535))),
     ("NamedTuple('pt', 'x y z', Sequence(Byte, Int16sl, VarInt))", _v_list(_v_int(0, 255), _v_int(-32768, 32767), _v_int(0, 2 ** 21 - 1))),
@@ -299,6 +306,22 @@ def payload_assumptions(ctx, s, v):
 def _extra(ctx, C, p):
     e = EXTRA[p["extra"]]
     source, vb, seedlen = e[0], e[1], (e[2] if len(e) > 2 else 4)
+    if source == "NODE":
+        ns = {}
+        node = C.Struct("v" / C.Byte, "kids" / C.Prefixed(C.Int8ub, C.GreedyRange(C.LazyBound(lambda: ns["node"]))))
+        ns["node"] = node
+        d = node
+        leaf = lambda i: dict(v=ctx.int("leaf%d" % i, 0, 255), kids=[])
+        v = dict(v=ctx.int("root", 0, 255), kids=[dict(v=ctx.int("mid0", 0, 255), kids=[leaf(0), leaf(1)]), leaf(2), dict(v=ctx.int("mid1", 0, 255), kids=[leaf(3)])])
+        rb = api.outcome(d.build, v)
+        ctx.check("the tree builds", rb.ok)
+        ro = api.outcome(d.parse, rb.value)
+        ctx.check("the built tree parses", ro.ok)
+
+        def same_tree(a, b):
+            return api.and_terms([ctx.eq(a["v"], b["v"]), len(a["kids"]) == len(b["kids"])] + [same_tree(x, y) for x, y in zip(a["kids"], b["kids"])])
+        ctx.check("every node of the tree comes back (children at every depth)", same_tree(ro.value, v))
+        return "ok"
     d = mk(C, source)
     kw = {}
     if "_params.a" in source:
